@@ -318,6 +318,33 @@ func vwViews(t *testing.T, N *vlNode, node, phase string, addrs []cipher.Address
 				r.Paged = append(r.Paged, pg)
 				return nil
 			})
+			// the same pages through the query that also resolves the inputs (verbose=1): it pages through the same list
+			vwTry(&r.Errs, "GetTransactionsWithInputs(paged "+p.name+")", func() error {
+				pg := vwPaged{Filter: p.name + "-verbose", Order: map[SortOrder]string{AscOrder: "asc", DescOrder: "desc"}[order], Size: uint64(1 + (seed+i+1)%3), Pages: [][]string{}, Totals: []uint64{}}
+				all, _, err := N.v.GetTransactions(p.flts, order, nil)
+				if err != nil {
+					return err
+				}
+				pg.Unpaged = vwHashes(all)
+				npages := (uint64(len(all)) + pg.Size - 1) / pg.Size
+				for n := uint64(1); n <= npages+2; n++ {
+					pi, err := NewPageIndex(pg.Size, n)
+					if err != nil {
+						return err
+					}
+					txns, ins, total, err := N.v.GetTransactionsWithInputs(p.flts, order, pi)
+					if err != nil {
+						return err
+					}
+					if len(ins) != len(txns) {
+						return fmt.Errorf("%d input lists for %d transactions", len(ins), len(txns))
+					}
+					pg.Pages = append(pg.Pages, vwHashes(txns))
+					pg.Totals = append(pg.Totals, total)
+				}
+				r.Paged = append(r.Paged, pg)
+				return nil
+			})
 		}
 	}
 	return r
